@@ -1031,9 +1031,16 @@ func (e *pathEngine) maybeInline(in ssa.Instruction, st *PState) ([]*PState, boo
 			}
 		}
 	}
+	bind := !viaPredicate && callee.Parent() == nil
+	if bind {
+		e.p.pushBindings(callee, call.Common().Args)
+	}
 	e.depth++
 	outs := e.run(callee, st)
 	e.depth--
+	if bind {
+		e.p.popBindings(callee, call.Common().Args)
+	}
 	// the call's results stand for what the callee returned on this path
 	raw := e.vkeyRaw(call)
 	for _, o := range outs {
